@@ -443,7 +443,6 @@ result<std::optional<url_pattern_result>> url_pattern<regex_provider>::match(
 
     // Set hash to applyResult["hash"].
     ADA_ASSERT_TRUE(apply_result->hash.has_value());
-    ADA_ASSERT_TRUE(!apply_result->hash->starts_with("#"));
     hash = std::move(apply_result->hash.value());
   } else {
     ADA_ASSERT_TRUE(std::holds_alternative<std::string_view>(input));
